@@ -658,6 +658,11 @@ def check_c12(tier):
             V.violation({"shape": sinfo[cid][0], "one_shard": sinfo[cid][1], "hazards": r["hazards"][:5],
                          "panics": panics[:3], "granted": r["granted"][:200]},
                         "deadlock / lock hazard / panic while a notification and requests run concurrently")
+    # ---- (5) the real binary with a SLOW client: the server's own requests to the client (inlay-hint refresh after every change)
+    # are answered late, while the client keeps sending notifications and requests for the same and for other documents; every
+    # request must still be answered (the handlers share one task with the reader: a handler that blocks wedges everything)
+    nslow = c12_slow_client(V, tier)
+    V.notes["slow_client_sessions"] = nslow
     V.sample({"templates": tlist})
     cov = {"states": meta["distinct"] + meta_iw["distinct"], "transitions": meta["transitions"] + meta_iw["transitions"],
            "traces_validated_against_impl": len(res) + len(sres), "templates": tlist, "entry_points": sorted(ops_seen),
@@ -675,6 +680,71 @@ def check_c12(tier):
         assumptions=["handlers of the binary crate are covered through the library entry points they call (code lens / inlay hint "
                      "hold a definitions.iter / usages.get guard across calls: read-under-read templates)",
                      "watchdog = %d s per harness process (a batch normally finishes in < 20 s)" % CONC_WATCHDOG])
+
+
+def c12_slow_client(V, tier):
+    import shutil
+    import lsp
+    C.build_server()
+    base = os.path.join(C.BUILD, "ws", "c12b-%d" % os.getpid())
+    shutil.rmtree(base, ignore_errors=True)
+    conf = "import pytest\n\n\n@pytest.fixture\ndef fx():\n    return 1\n"
+    tx = "def test_x(fx):\n    pass\n"
+    scripts = {
+        "change_then_close_same": ["open x", "change x", "close x", "hover y"],
+        "change_then_open_others": ["open x", "change x", "open y", "open z", "close y", "hover x"],
+        "changes_back_to_back": ["open x", "open y", "change x", "change y", "change x", "close x", "open x", "hover y"],
+        "close_reopen_during_refresh": ["open x", "change x", "close x", "open x", "change x", "close x", "hover y"],
+    }
+    jobs = [(name, d) for name in scripts for d in ((0.4, 1.5) if tier == "quick" else (0.2, 0.4, 1.0, 2.5))]
+
+    def session(job):
+        name, delay = job
+        root = os.path.join(base, "%s_%s" % (name, str(delay).replace(".", "_")))
+        os.makedirs(root, exist_ok=True)
+        with open(os.path.join(root, "conftest.py"), "w") as fh:
+            fh.write(conf)
+        paths = {k: os.path.join(root, "test_%s.py" % k) for k in "xyz"}
+        for p in paths.values():
+            with open(p, "w") as fh:
+                fh.write(tx)
+        srv = lsp.Server(timeout=25, reply_delay=delay)
+        ver = {}
+        try:
+            srv.initialize(root)
+            srv.did_open(paths["y"], tx)
+            answered = 0
+            for step in scripts[name]:
+                op, k = step.split()
+                if op == "open":
+                    ver[k] = 1
+                    srv.did_open(paths[k], tx, wait_diag=False)
+                elif op == "change":
+                    ver[k] = ver.get(k, 1) + 1
+                    srv.did_change(paths[k], tx + "\n# edit %d\n" % ver[k], version=ver[k], wait_diag=False)
+                elif op == "close":
+                    srv.did_close(paths[k])
+                elif op == "hover":
+                    srv.pos_request("textDocument/hover", paths[k], 0, 12)
+                    answered += 1
+            srv.pos_request("textDocument/definition", paths["y"], 0, 12)
+            return {"answered": answered + 1, "alive": srv.alive()}
+        except (lsp.ServerDied, lsp.Timeout) as e:
+            return {"error": str(e)}
+        finally:
+            srv.close()
+            shutil.rmtree(root, ignore_errors=True)
+
+    for job, r in zip(jobs, lsp.run_parallel(jobs, session, workers=8)):
+        V.count()
+        V.nontriv(("slow_client",) + job)
+        if r is None or "__exception__" in r:
+            raise C.ToolError("LSP session failed: %r" % (r,))
+        if "error" in r or not r.get("alive"):
+            V.violation({"script": scripts[job[0]], "client_answers_server_requests_after_s": job[1], "result": r},
+                        "the server stopped answering while the client was slow to answer the server's own requests")
+    shutil.rmtree(base, ignore_errors=True)
+    return len(jobs)
 
 
 def c10_binary(V, tier):
